@@ -270,6 +270,9 @@ impl StreamInterceptor for Tamper {
             }
             let same_chan = if site.chan.gate == "*" {
                 site.chan.kind == key.kind && site.chan.src == key.src && site.chan.dst == key.dst && site.chan.shard == key.shard
+            } else if let Some(part) = site.chan.gate.strip_prefix('~') {
+                // "~text": any gate of that (kind, src, dst, shard) whose name contains the text
+                site.chan.kind == key.kind && site.chan.src == key.src && site.chan.dst == key.dst && site.chan.shard == key.shard && key.gate.contains(part)
             } else {
                 site.chan == key
             };
